@@ -173,9 +173,6 @@ Theorem C14_parse_full_nosemi : forall b, wfp_block b = true -> csf_block b = tr
 Proof. exact parse_full_nosemi. Qed.
 Check C14_parse_full_nosemi : forall b, wfp_block b = true -> csf_block b = true ->
   parse_from l_grammar L_EXP (render_block b) = PFuel \/ parse_ok b.
-Example C14_parse_full_nosemi_nonvacuous :
-  wfp_block wit_ind = true /\ csf_block wit_ind = true /\ wfp_block wit2 = true /\ csf_block wit2 = true.
-Proof. vm_compute. repeat split. Qed.
 
 (** the round-3 fragment is the special case without indentation and blank lines *)
 Theorem C14_parse_indented_extends : forall b, frag_block b = true -> fragI_block b = true.
@@ -208,6 +205,9 @@ Definition wit_ind : block :=
 Example C14_parse_indented_nonvacuous :
   fragI_block wit_ind = true /\ frag_block wit_ind = false /\ parse_ok wit_ind.
 Proof. split; [vm_compute; reflexivity|]. split; [vm_compute; reflexivity|]. prove_parse_ok. Qed.
+Example C14_parse_full_nosemi_nonvacuous :
+  wfp_block wit_ind = true /\ csf_block wit_ind = true /\ wfp_block wit2 = true /\ csf_block wit2 = true.
+Proof. vm_compute. repeat split. Qed.
 
 (** flat scripts (round 2) are the depth-0 case *)
 Theorem C14_parse_flat : forall b, frag_flat b = true ->
